@@ -208,6 +208,19 @@ class StmtMixin:
 
     def set_slice(self, base_expr, base, sl, val):
         '''bytearray slice assignment: within bounds replaces, beyond extends.'''
+        from .types import TOpt as _TOpt
+        if isinstance(val.t, _TOpt) and val.t.inner is TBytes:
+            self.need(z3.Not(val.t.is_none(val.z)), 'TypeError')
+            val = V(TBytes, val.t.val(val.z))
+        if isinstance(base.t, _TOpt) and base.t.inner is TBytes:
+            self.need(z3.Not(base.t.is_none(base.z)), 'TypeError')
+            inner = V(TBytes, base.t.val(base.z), lval=base.lval)
+            # the store goes back into the optional location
+            self._slice_opt_t = base.t
+            try:
+                return self.set_slice(base_expr, inner, sl, val)
+            finally:
+                self._slice_opt_t = None
         if base.t is not TBytes or val.t is not TBytes:
             raise Unsupported('slice store on %s' % base.t)
         n = z3.Length(base.z)
@@ -217,7 +230,15 @@ class StmtMixin:
         self.nonneg_or_unsupported(hi, 'slice bound')
         lo2 = z3.If(lo > n, n, lo)
         hi2 = z3.If(hi > n, n, z3.If(hi < lo2, lo2, hi))
-        new = V(TBytes, z3.Concat(z3.Extract(base.z, 0, lo2), val.z, z3.Extract(base.z, hi2, n - hi2)), lval=base.lval)
+        fsx = self.frame.fspec or self.cur_fspec
+        if fsx is not None and fsx.d.get('opaque_slice_store'):
+            # the contract of this unit says nothing about buffer contents: the result is an unknown octet string
+            # of the right length (keeps sequence operations, and with them the external solvers, out of the unit)
+            nv = fresh(TBytes, 'buf')
+            self.assume(z3.Length(nv.z) == n - (hi2 - lo2) + z3.Length(val.z))
+            new = V(TBytes, nv.z, lval=base.lval)
+        else:
+            new = V(TBytes, z3.Concat(z3.Extract(base.z, 0, lo2), val.z, z3.Extract(base.z, hi2, n - hi2)), lval=base.lval)
         self.store_back(base_expr, base, new)
 
     def ex_Delete(self, s):
